@@ -64,7 +64,7 @@ fn c09_mapped_user_all_prefixes() {
     truncated(&gen::IMG_MATRIX_USER_MAPPED, 0, gen::IMG_MATRIX_USER_MAPPED.len())
 }
 
-//@ c09_foreign_magic {"desc":"any 21-byte header different from the current model magic, followed by the valid body, is rejected","bounds":"21-byte header, fully symbolic, different from the magic; nothing after it","symbolic":"all 21 header bytes","functions":["Dictionary::read","Dictionary::read_common"],"fs":5000,"unwind":24,"unwindset":["memcmp:24"],"timeout":1200,"stubs":["alloc::fmt::format"]}
+//@ c09_foreign_magic {"tier":"thorough","core":false,"desc":"any 21-byte header different from the current model magic, followed by the valid body, is rejected","bounds":"21-byte header, fully symbolic, different from the magic; nothing after it","symbolic":"all 21 header bytes","functions":["Dictionary::read","Dictionary::read_common"],"fs":5000,"unwind":24,"unwindset":["memcmp:24"],"timeout":1200,"stubs":["alloc::fmt::format"]}
 #[cfg(kani)]
 #[kani::proof]
 #[kani::stub(alloc::fmt::format, crate::c06::stub_format)]
@@ -89,7 +89,7 @@ fn c09_foreign_magic() {
     core::mem::forget(r);
 }
 
-//@ c09_header_truncated {"desc":"every image cut inside the magic header (0..20 bytes) is rejected","bounds":"truncation point 0..20 of the 359-byte matrix image","symbolic":"the truncation point","functions":["Dictionary::read","Dictionary::read_common"],"fs":5000,"unwind":24,"unwindset":["memcmp:24"],"timeout":900,"stubs":["alloc::fmt::format"]}
+//@ c09_header_truncated {"tier":"thorough","core":false,"desc":"every image cut inside the magic header (0..20 bytes) is rejected","bounds":"truncation point 0..20 of the 359-byte matrix image","symbolic":"the truncation point","functions":["Dictionary::read","Dictionary::read_common"],"fs":5000,"unwind":24,"unwindset":["memcmp:24"],"timeout":900,"stubs":["alloc::fmt::format"]}
 #[cfg(kani)]
 #[kani::proof]
 #[kani::stub(alloc::fmt::format, crate::c06::stub_format)]
@@ -128,13 +128,52 @@ fn c09_u31_decode_range() {
     core::mem::forget(t);
 }
 
-//@ c09_scorer_decode_consistency {"desc":"the Scorer decoder rejects images whose check and cost arrays differ in length (decoder-side consistency check) and accepts consistent ones","bounds":"bases len 1, checks len 2, costs len 1..3","symbolic":"array contents, costs length","functions":["Scorer::decode"],"unwind":14,"fs":5000,"timeout":900}
+//@ c09_u31x8_decode {"desc":"the 8-lane feature-id decoder accepts 32 bytes iff every lane is a valid 31-bit value, reproduces them, and rejects every truncated input","bounds":"all 32-byte inputs; all truncation points 0..31","symbolic":"the 32 bytes, the truncation point","functions":["U31x8::decode","U31::decode","U31x8::encode"],"unwind":12,"unwindset":["memcmp:40"],"timeout":900}
 #[cfg(kani)]
 #[kani::proof]
-fn c09_scorer_decode_consistency() {
-    let ncost = 1 + any_below(3);
-    // bincode image written by hand (fixed-int little endian): Vec<u32> bases (1), Vec<u32>
-    // checks (2), Vec<i32> costs (ncost); lengths are concrete bytes, contents symbolic
+fn c09_u31x8_decode() {
+    let bytes: [u8; 32] = kani::any();
+    let mut all_valid = true;
+    let mut lanes = [0u32; 8];
+    for i in 0..8 {
+        lanes[i] = u32::from_le_bytes([bytes[4 * i], bytes[4 * i + 1], bytes[4 * i + 2], bytes[4 * i + 3]]);
+        if lanes[i] > 0x7fff_ffff {
+            all_valid = false;
+        }
+    }
+    let r: Result<(U31x8, usize), _> = bincode::decode_from_slice(&bytes, bincode_config());
+    match &r {
+        Ok((x, n)) => {
+            assert!(all_valid, "a lane with the sign bit set was accepted");
+            assert!(*n == 32);
+            let a = x.verif_to_array();
+            for i in 0..8 {
+                assert!(a[i].get() == lanes[i]);
+            }
+            // and writing it again reproduces the same bytes
+            let mut out = [0u8; 32];
+            let m = bincode::encode_into_slice(x, &mut out, bincode_config());
+            assert!(matches!(m, Ok(32)));
+            for i in 0..32 {
+                assert!(out[i] == bytes[i]);
+            }
+        }
+        Err(_) => assert!(!all_valid, "a valid 8-lane block was rejected"),
+    }
+    let k = any_below(32);
+    let t: Result<(U31x8, usize), _> = bincode::decode_from_slice(&bytes[..k], bincode_config());
+    assert!(t.is_err(), "a truncated 8-lane block was decoded");
+    kani::cover!(all_valid);
+    kani::cover!(!all_valid && lanes[0] <= 0x7fff_ffff);
+    core::mem::forget(r);
+    core::mem::forget(t);
+}
+
+/// bincode image written by hand (fixed-int little endian): Vec<u32> bases (1 element), Vec<u32>
+/// checks (2), Vec<i32> costs (`ncost`); the lengths are concrete bytes (structure of the
+/// instance), the contents symbolic.
+#[cfg(kani)]
+fn scorer_decode(ncost: usize) {
     let mut buf = [0u8; 48];
     buf[0] = 1;
     for i in 8..12 {
@@ -144,22 +183,41 @@ fn c09_scorer_decode_consistency() {
     for i in 20..28 {
         buf[i] = kani::any();
     }
-    let mut total = 36;
-    for c in 1..4 {
-        if c == ncost {
-            buf[28] = c as u8;
-            total = 36 + 4 * c;
-        }
-    }
+    buf[28] = ncost as u8;
+    let total = 36 + 4 * ncost;
     for i in 36..48 {
         buf[i] = kani::any();
     }
     let mut r = ByteReader::new(&buf, total);
     let d: Result<Scorer, _> = bincode::decode_from_std_read(&mut r, bincode_config());
     assert!(d.is_ok() == (ncost == 2), "Scorer image with inconsistent arrays accepted (or consistent one rejected)");
-    kani::cover!(ncost == 3);
-    kani::cover!(ncost == 2);
+    if let Ok(sc) = &d {
+        assert!(sc.verif_checks().len() == 2 && sc.verif_costs().len() == 2 && sc.verif_bases().len() == 1);
+        assert!(sc.verif_costs()[1] == i32::from_le_bytes([buf[40], buf[41], buf[42], buf[43]]));
+    }
+    kani::cover!(buf[8] == 7);
     core::mem::forget(d);
+}
+
+//@ c09_scorer_decode_short_costs {"tier":"thorough","core":false,"desc":"the Scorer decoder rejects an image whose cost array is shorter than its check array (decoder-side consistency check)","bounds":"bases 1, checks 2, costs 1","symbolic":"array contents","functions":["Scorer::decode"],"unwind":14,"fs":5000,"timeout":900}
+#[cfg(kani)]
+#[kani::proof]
+fn c09_scorer_decode_short_costs() {
+    scorer_decode(1)
+}
+
+//@ c09_scorer_decode_long_costs {"tier":"thorough","core":false,"desc":"the Scorer decoder rejects an image whose cost array is longer than its check array","bounds":"bases 1, checks 2, costs 3","symbolic":"array contents","functions":["Scorer::decode"],"unwind":14,"fs":5000,"timeout":900}
+#[cfg(kani)]
+#[kani::proof]
+fn c09_scorer_decode_long_costs() {
+    scorer_decode(3)
+}
+
+//@ c09_scorer_decode_consistent {"tier":"thorough","core":false,"desc":"a consistent Scorer image is accepted and decodes to the written values (non-vacuity of the two rejections)","bounds":"bases 1, checks 2, costs 2","symbolic":"array contents","functions":["Scorer::decode"],"unwind":14,"fs":5000,"timeout":900}
+#[cfg(kani)]
+#[kani::proof]
+fn c09_scorer_decode_consistent() {
+    scorer_decode(2)
 }
 
 //@ c09_twin {"expect":"fail","desc":"vacuity twin: claims every 4-byte input is rejected by the U31 decoder","bounds":"4 bytes","symbolic":"the bytes","functions":["U31::decode"],"unwind":8,"timeout":600,"covers":"none","stubs":["alloc::fmt::format"]}
